@@ -148,6 +148,20 @@ let handle (toks : string list) : string =
       if p1 = None || p1 <> parse_ref (tokens (bytes_of_hex s2)) then "diff not_layout_variants"
       else if same <> "1" then "chk layout_results " ^ (if detail = "-" then "" else unhex detail)
       else if int_of_string nres > 0 then "ok nt" else "ok"
+  | ["F"; s1; s2; o1; o2; same; expk; k1; k2] ->
+      (* complete statements of every clause kind: accepted in both keyword casings, same structure;
+         the two texts must be the same token stream up to keyword / word case (lexer model) *)
+      let up (t : token) = (int_of_n t.ttype, if int_of_n t.ttype = 1 then String.uppercase_ascii (str_of_bytes (canon t).tval) else str_of_bytes (canon t).tval) in
+      let t1 = List.map up (tokens (bytes_of_hex s1)) and t2 = List.map up (tokens (bytes_of_hex s2)) in
+      if List.map fst t1 <> List.map fst t2 then "diff not_case_variants"
+      else if o1 = "panic" || o1 = "timeout" then "chk parse_total " ^ o1
+      else if o2 = "panic" || o2 = "timeout" then "chk parse_total " ^ o2
+      else if o1 <> "ok" then "chk parse_accepts_documented_grammar outcome=" ^ o1
+      else if o2 <> "ok" then "chk keyword_case_accepts outcome=" ^ o2
+      else if k1 <> expk then Printf.sprintf "chk faithful_clause_kinds written=%s config=%s" expk k1
+      else if k2 <> expk then Printf.sprintf "chk keyword_case_clause_kinds written=%s config=%s" expk k2
+      else if same <> "1" then "chk keyword_case_structure"
+      else "ok nt"
   | ["T"; inp; outcome] ->
       (match outcome with
        | "ok" -> "ok"
